@@ -25,6 +25,7 @@ mod corpus;
 mod foreign;
 mod nomshim;
 mod pan;
+mod progress;
 mod sinks;
 
 use serde::{Deserialize, Serialize};
@@ -195,6 +196,12 @@ fn cmd_run(args: &[String]) {
             eprintln!("NOTE: only {} of 4 bystander threads parked: {parked:?}", parked.len());
         }
     }
+    // watchdog: a case that never returns ends the child (exit 4, "STALLED n"); see progress.rs
+    let hang_s: u64 = arg(args, "--hang-s").and_then(|s| s.parse().ok()).unwrap_or(120);
+    if let (Some(from), Some(path)) = (arg(args, "--trace-from"), arg(args, "--trace-out")) {
+        progress::trace(from.parse().unwrap_or(0), path);
+    }
+    progress::watchdog(hang_s);
     let t0 = std::time::Instant::now();
     let (sum, viols) = run_prop(&ctx);
     let wall = t0.elapsed().as_secs_f64();
@@ -269,6 +276,8 @@ fn cmd_run(args: &[String]) {
     }
 }
 
+static FIRST_EXEC_RETURNED: std::sync::atomic::AtomicBool = std::sync::atomic::AtomicBool::new(false);
+
 fn cmd_exec(args: &[String]) {
     let file = arg(args, "--file").unwrap_or_else(|| harness_error("--file required"));
     let text = std::fs::read_to_string(file).unwrap_or_else(|e| harness_error(&format!("cannot read {file}: {e}")));
@@ -281,7 +290,33 @@ fn cmd_exec(args: &[String]) {
     if rf.bystanders {
         let _ = bystander::park_all();
     }
+    // one case in a fresh process: if it has not returned after the time limit it is reported as a hang
+    // (the same limit the watchdog of a run uses; real code on real threads, nothing simulated to blame)
+    {
+        let hang_s: u64 = arg(args, "--hang-s").and_then(|s| s.parse().ok()).unwrap_or(120);
+        let mut rf2 = rf.clone();
+        let out = replay_out.clone();
+        let _ = std::thread::Builder::new().name("exec-deadline".into()).spawn(move || {
+            std::thread::sleep(std::time::Duration::from_secs(hang_s));
+            if FIRST_EXEC_RETURNED.load(std::sync::atomic::Ordering::SeqCst) {
+                return; // the case itself returned in time; what runs now is the shrinker
+            }
+            let detail = format!("the case did not return within {hang_s} s in a process of its own");
+            rf2.observed = Some(Observed { class: "hang".into(), site: String::new(), message: String::new(), detail: detail.clone() });
+            rf2.profile = profile().into();
+            if let Some(p) = out {
+                if std::fs::write(&p, serde_json::to_string_pretty(&rf2).unwrap()).is_ok() {
+                    println!("CANDIDATE {p}");
+                }
+            }
+            println!("RESULT {}", json!({"violation": true, "class": "hang", "site": "", "message": "", "detail": detail}));
+            use std::io::Write;
+            let _ = std::io::stdout().flush();
+            std::process::exit(3);
+        });
+    }
     let res = exec_prop(&rf.property, &rf.case).unwrap_or_else(|e| harness_error(&e));
+    FIRST_EXEC_RETURNED.store(true, std::sync::atomic::Ordering::SeqCst);
     let Some(mut viol) = res else {
         println!("RESULT {}", json!({"violation": false}));
         return;
@@ -337,6 +372,11 @@ fn main() {
             if args.iter().any(|a| a == "--logger") {
                 logger::install();
             }
+            // never outlive the parent by much: a call that does not return ends this helper process
+            let _ = std::thread::spawn(|| {
+                std::thread::sleep(std::time::Duration::from_secs(300));
+                std::process::exit(5);
+            });
             if args[1] == "c10-ref" {
                 c10::proc_ref_main();
             } else {
